@@ -326,6 +326,90 @@ def gen_multipath(rng, nrandom):
     return cases
 
 
+def offdiag_update(rng, rows, vals, block):
+    """new values that differ from `vals` only OFF the (block) diagonal"""
+    new = gen_values(rng, rows, block=block)
+    k = 0
+    out = []
+    for i, r in enumerate(rows):
+        for j in r:
+            w = block * block
+            out.extend(vals[k:k + w] if j == i else new[k:k + w])
+            k += w
+    return out
+
+
+def gen_filter_desc(rng, n, bs, ftype):
+    if ftype == "unit":
+        return "unit " + fmt_n(gen_filter(rng, n))
+    if ftype == "none":
+        return "none"
+    if ftype == "mean":
+        N = n * bs
+        prim = [Fr(rng.randint(1, 4)) for _ in range(N)]
+        dual = [Fr(rng.randint(1, 5), rng.choice([1, 2, 3])) for _ in range(N)]   # volume > 0
+        return "mean %s %s" % (fmt_q(prim), fmt_q(dual))
+    if ftype == "slip":
+        idx = gen_filter(rng, n) or [rng.randrange(n)]
+        parts = []
+        for i in idx:
+            nu = [rand_val(rng, nonzero=False) for _ in range(bs)]
+            if all(v == 0 for v in nu):
+                nu[0] = Fr(1)
+            parts.append("%d %s" % (i, " ".join(fq(v) for v in nu)))
+        return "slip %d %s" % (len(idx), " ".join(parts))
+    raise ValueError(ftype)
+
+
+SCALAR_KINDS = ["jac", "sor", "ssor", "poly", "ilu", "mat", "scale", "diag"]
+BLOCK_KINDS = ["jac", "sor", "ssor", "ilu", "mat", "scale", "diag"]
+
+
+def gen_sessions(rng, reps):
+    """deterministic part of every tier: for EVERY preconditioner kind, storage format (CSR, BCSR 2x2, 3x3) and filter type
+    (unit / none / mean resp. slip) one multi-step session per repetition on one solver object:
+      init -> apply -> ALL values change (incl. the diagonal) -> done_numeric + init_numeric only -> apply ->
+      only OFF-diagonal values change -> init_numeric -> apply -> in-place apply(v, v) -> done, new values,
+      full init -> apply -> done.
+    Every apply is compared with the model and with the dense operator of the CURRENT values."""
+    cases = []
+    for rep in range(reps):
+        for bs in (1, 2, 3):
+            kinds = SCALAR_KINDS if bs == 1 else BLOCK_KINDS
+            for kind in kinds:
+                for ftype in (["unit", "none", "mean"] if bs == 1 else ["unit", "none", "slip"]):
+                    if kind == "poly" and ftype == "mean":
+                        continue   # filter_def of the mean filter inside the polynomial loop is not modelled
+                    n = rng.choice([3, 4, 5]) if bs == 1 else rng.choice([2, 3])
+                    style, rows = gen_pattern(rng, n, "diag" if kind == "diag" else rng.choice(["tri", "sparse", "dense", "arrow", "band2"]))
+                    p = rng.choice([0, 1, 2]) if kind == "ilu" else (rng.choice([1, 2, 3]) if kind == "poly" else 0)
+                    omega = rng.choice(OMEGAS)
+                    nv = n * bs
+
+                    def vals_():
+                        return gen_values(rng, rows, dominant=True, block=bs)
+
+                    def x_():
+                        return fmt_q(rand_vec(rng, nv))
+                    v0 = vals_()
+                    v1 = vals_()
+                    v2 = offdiag_update(rng, rows, v1, bs)
+                    v3 = vals_()
+                    steps = ["S", "N", "A " + x_(), "U " + fmt_q(v1), "E", "N", "A " + x_(),
+                             "U " + fmt_q(v2), "N", "A " + x_()]
+                    if kind != "mat":
+                        steps.append("I " + x_())
+                    steps += ["D", "U " + fmt_q(v3), "S", "N", "A " + x_(), "D"]
+                    head = "hist" if bs == 1 else "histb %d" % bs
+                    cases.append("%s %s %d %s %s %s %d %s" % (head, kind, p, fq(omega), fmt_csr(rows, v0),
+                                                              gen_filter_desc(rng, n, bs, ftype), len(steps), " ".join(steps)))
+        # the in-place call of the matrix preconditioner must be refused (aliased vectors), not silently wrong
+        n = 3
+        style, rows = gen_pattern(rng, n, "tri")
+        cases.append("hist mat 0 1/1 %s none 3 S N I %s" % (fmt_csr(rows, gen_values(rng, rows)), fmt_q(rand_vec(rng, n))))
+    return cases
+
+
 def gen_cases(rng, count, big=False):
     cases = []
     for _ in range(count):
@@ -475,12 +559,50 @@ def madd(a, b, fa=Fr(1), fb=Fr(1)):
     return [[fa * x + fb * y for x, y in zip(r, s)] for r, s in zip(a, b)]
 
 
-def apply_filter(v, fidx, bs=1):
+def apply_filter(v, filt, bs=1, mode="cor"):
+    """the filter of the case applied to the pod vector v.  filt: list of indices (unit filter, the historic form) or
+    ("unit", idx) | ("none",) | ("mean", prim, dual) | ("slip", [(i, nu)])"""
     v = list(v)
-    for i in fidx:
-        for a in range(bs):
-            v[i * bs + a] = Fr(0)
+    if isinstance(filt, list):
+        filt = ("unit", filt)
+    if filt[0] == "unit":
+        for i in filt[1]:
+            for a in range(bs):
+                v[i * bs + a] = Fr(0)
+    elif filt[0] == "mean":
+        prim, dual = filt[1], filt[2]
+        if prim:
+            vol = sum(a * b for a, b in zip(prim, dual))
+            if mode == "cor":    # vector -= (vector . dual) / vol * prim
+                t = sum(a * b for a, b in zip(v, dual)) / vol
+                v = [a - t * b for a, b in zip(v, prim)]
+            else:                # filter_def: vector -= (vector . prim) / vol * dual
+                t = sum(a * b for a, b in zip(v, prim)) / vol
+                v = [a - t * b for a, b in zip(v, dual)]
+    elif filt[0] == "slip":
+        for i, nu in sorted(dict(filt[1]).items()):
+            blk_ = v[i * bs:(i + 1) * bs]
+            sp = sum(a * b for a, b in zip(blk_, nu)) / sum(a * a for a in nu)
+            v[i * bs:(i + 1) * bs] = [a - sp * b for a, b in zip(blk_, nu)]
     return v
+
+
+def parse_filter(c, bs):
+    """filter descriptor of a history line (see harness/c08/main.cpp)"""
+    t = c.t[c.p]
+    if t[0].isdigit():
+        return ("unit", c.nlist())
+    c.tok()
+    if t == "unit":
+        return ("unit", c.nlist())
+    if t == "none":
+        return ("none",)
+    if t == "mean":
+        return ("mean", c.qlist(), c.qlist())
+    if t == "slip":
+        k = c.nat()
+        return ("slip", [(c.nat(), [vlib.parse_frac(c.tok()) for _ in range(bs)]) for _ in range(k)])
+    raise ValueError("filter " + t)
 
 
 def level_pattern(n, rows, p):
@@ -556,6 +678,10 @@ def ilu_reference(n, rows, p, dense, bs=1):
 def expected_apply(kind, p, omega, n, rows, dense, fidx, x, bs=1):
     """the property's operator applied to x; returns list, or 'ABORT' where the operator does not exist"""
     N = n * bs
+    if kind == "scale":
+        return apply_filter([omega * v for v in x], fidx, bs)
+    if kind == "diag":     # dense = the vector of the diagonal preconditioner here
+        return apply_filter([a * b for a, b in zip(dense, x)], fidx, bs)
     L, D, U = split_ldu(dense, n, bs)
     if kind == "mat":
         return apply_filter(matvec(dense, x), fidx, bs)
@@ -581,7 +707,7 @@ def expected_apply(kind, p, omega, n, rows, dense, fidx, x, bs=1):
         term = [mt[i] * x[i] for i in range(N)]
         acc = list(term)
         for _ in range(p):
-            at = apply_filter(matvec(dense, term), fidx, bs)
+            at = apply_filter(matvec(dense, term), fidx, bs, mode="def")
             term = [term[i] - mt[i] * at[i] for i in range(N)]
             acc = [a + t for a, t in zip(acc, term)]
         return apply_filter(acc, fidx, bs)
@@ -607,13 +733,13 @@ def parse_hist(c, blocked):
     omega = vlib.parse_frac(c.tok())
     n = c.nat()
     rp, ci, vals = c.nlist(), c.nlist(), c.qlist()
-    fidx = c.nlist()
+    fidx = parse_filter(c, bs)
     ns = c.nat()
     steps = []
     for _ in range(ns):
         s = c.tok()
-        if s == "A":
-            steps.append(("A", c.qlist()))
+        if s in ("A", "I"):
+            steps.append((s, c.qlist()))
         elif s == "U":
             steps.append(("U", c.qlist()))
         else:
@@ -621,7 +747,7 @@ def parse_hist(c, blocked):
     return bs, kind, p, omega, n, rp, ci, vals, fidx, steps
 
 
-STATELESS = ("sor", "ssor", "mat")
+STATELESS = ("sor", "ssor", "mat", "scale", "diag")
 
 
 def oracle_hist(case, out, blocked):
@@ -656,10 +782,15 @@ def oracle_hist(case, out, blocked):
                 if any(dense[i][i] == 0 for i in range(n * bs)):
                     abort_expected = True
                     break
-        elif s == "A":
+        elif s == "E":
+            pass                    # done_numeric alone: a no-op for these classes, init_numeric follows
+        elif s in ("A", "I"):
             applies.append(arg)
+            if s == "I" and kind == "mat" and vals:
+                abort_expected = True   # SparseMatrix::apply refuses aliased vectors: reported, not silent
+                break
             if kind in STATELESS or (sym and num):
-                dense = dense_of(n, rp, ci, vals, bs)
+                dense = vals[:n * bs] if kind == "diag" else (None if kind == "scale" else dense_of(n, rp, ci, vals, bs))
                 expected.append(expected_apply(kind, p, omega, n, rows, dense, fidx, arg, bs))
             elif not sym and kind in ("jac", "poly"):
                 abort_expected = True   # apply before init: reported, never a silent result
@@ -864,11 +995,10 @@ def oracle(case, out):
 
 
 def model_filter(case):
-    """BCSR histories have a Lean model for the SOR / SSOR sweeps (generic blocked sweeps, Model/Solver/Blocked) and for
-    ILU (the scalar ILU model instantiated at the non-commutative ring of bs x bs rational matrices)"""
-    if not case.startswith("histb"):
-        return True
-    return case.split(" ", 3)[2] in ("sor", "ssor", "ilu")
+    """every history has a Lean model: BCSR SOR / SSOR = generic blocked sweeps (Model/Solver/Blocked), BCSR ILU = the
+    scalar ILU model at the ring of bs x bs rational matrices, BCSR Jacobi / matrix / scale / diagonal = the scalar state
+    machine on the expanded scalar matrix"""
+    return True
 
 
 def canon(out):
@@ -938,6 +1068,12 @@ def describe(case):
             if pp >= 2 and n <= 9 and multipath_sensitive(n, rows, pp):
                 keys.append("ilu:multi-path-level-sensitive")
         if op in ("hist", "histb"):
+            ft = next((x for x in t if x in ("none", "mean", "slip")), "unit")
+            keys.append("filter:" + ft)
+            if "E" in t and "I" in t or ("E" in t and kind == "mat"):
+                keys.append("session:%s%s:%s" % (kind, "-b" + t[1] if op == "histb" else "", ft))
+            if "I" in t:
+                keys.append("in-place-apply")
             nu = sum(1 for x in t if x == "U")
             keys.append("updates:%d" % nu)
             if t[-1] != "D":
@@ -972,6 +1108,7 @@ def main(argv):
                 cases += [l.strip() for l in open(os.path.join(cdir, fn)) if l.strip() and not l.startswith("#")]
         cases += gen_fill_refresh(rng, 300 if args.tier == "quick" else 3000)
         cases += gen_multipath(rng, 150 if args.tier == "quick" else 3000)
+        cases += gen_sessions(rng, 4 if args.tier == "quick" else 40)
         cases += gen_cases(rng, 12000) if args.tier == "quick" else gen_cases(rng, 150000, big=True)
     st = vlib.Stream("precond", cases, [binary], vlib.driver_cmd(PROP), oracle=oracle, nontrivial=nontrivial,
                      describe=describe, signature=signature, canon=canon,
